@@ -42,6 +42,7 @@ NEEDS = {
  "C17-b": "PTYN address mask & 3 plus an off-by-one range guard in string_update_single: a 10A group with address bits 10b writes errors[8], i.e. the PS progressive flag",
  "C18-b": "country tables stored as fixed-width cells; the name width 28 drops the terminator of the one 28-character name (argument 192)",
  "C19-b": "function-local static flag 'LF/MF follows' set when the second AF code is 250: the next 0A group of ANY instance loses its first AF",
+ "C20-b": "an #ifdef RDSPARSER_DISABLE_UNICODE shortcut in the pair store decides 'same data' for both cells from the first cell's level: only the narrow builds, only when the two cells of a pair hold different levels and a re-delivery arrives at a level in between",
  "C20-a": "end-of-line decided on the converted character: in the RDSPARSER_DISABLE_UNICODE builds an error-free 0x00 byte is stored as end-of-text marker; default build unaffected",
 }
 for sid in sorted(os.listdir(os.path.join(VERIF, "seeded"))):
